@@ -131,6 +131,7 @@ def run(ctx, res):
     fl = F.one(rt.GLR + "find_lookaheads$")
     nbr = 0
     badp = None
+    order_bad = False
     for p in Sim(fl, F, max_paths=100000).run():
         i_lp = idx(p, "parse_with_context")
         if i_lp is None:
@@ -143,6 +144,20 @@ def run(ctx, res):
         oka = after and is_call(after[0][2][1], "Context::state")
         if not (okb and oka):
             badp = p.end
+        # ... and only after the lexer found no token at this position (LR does the same: tokens first, layout second)
+        before_lp = [c for c in p.events[:i_lp] if c[0] == "cond"]
+        # (empty-handed = what the LEXER returned is empty, not some other empty vector)
+        no_token = any(mir.has_call(c[1], "next_tokens") and (
+            (is_call(c[1], "::is_empty") and c[2] == 1) or
+            (c[1][0] == "bin" and mir.has_call(c[1], "::len") and ((c[1][1] == "Eq" and c[2] == 1) or (c[1][1] in ("Gt", "Ne") and c[2] == 0))))
+            for c in before_lp)
+        if not no_token:
+            order_bad = True
+    if order_bad and nbr:
+        res.violation(rid11, "glr-layout-after-tokens", "find_lookaheads runs the layout parser on a path on which the lexer was not found "
+                      "empty-handed first: GLR skips as layout what LR reads as a token (`/` against `//` comments)", fl.loc())
+    elif nbr:
+        res.ok(rid11, "glr-layout-after-tokens", fl.loc(), "layout only when no token matched")
     if not nbr:
         res.anchor_lost(rid11, "call of the layout parser in find_lookaheads not found", fl.loc())
     elif badp:
